@@ -1134,9 +1134,9 @@ class Object( object ):
             elif data.service in ( self.GA_SNG_RPY, self.SA_SNG_RPY ):
                 # Get/Set Attribute Single.  Collect up the bytes representing the attribute.
                 nam		= self.GA_SNG_NAM if data.service == self.GA_SNG_RPY else self.SA_SNG_NAM
-                assert 'attribute' in data.path['segment'][-1], \
+                assert 'element' not in data.path['segment'][-1], \
                     "%s path must identify Attribute" % ( nam )
-                a_id		= data.path['segment'][-1]['attribute']
+                _,_,a_id	= resolve( data.path, attribute=True ) # numeric, or by (Tag) name
                 assert str(a_id) in self.attribute, \
                     "%s specified non-existent Attribute" % ( nam )
                 assert not ( self.attribute[str(a_id)].mask & Attribute.MASK_GA_SNG ),\
